@@ -222,9 +222,15 @@ def gen_reply_bytes(rng):
         data += final + b'\r220 second code\n'
     if rng.random() < 0.4:
         data += rng.choice([b'226 next\r\n', b'x', b'150 a\r\n226 b\r\n', b'\n'])
-    if rng.random() < 0.03:
-        big = b'a' * rng.choice([65535, 65536, 65537, 70000])
-        data = rng.choice([b'220-', b'']) + big + rng.choice([b'\n', b'\r\n', b'']) + data
+    if rng.random() < 0.05:
+        big = b'a' * rng.choice([65535, 65536, 65537, 70000, 140000])
+        bigline = rng.choice([b'220-', b'', b' ']) + big + rng.choice([b'\n', b'\r\n', b''])
+        if rng.random() < 0.5 or b'\n' not in data:
+            data = bigline + data
+        else:
+            # the over-long line is a LATER line of a multi-line reply (free text of a banner)
+            k = data.index(b'\n') + 1
+            data = data[:k] + bigline + data[k:]
     if rng.random() < 0.1:
         # byte-level mutation
         b = bytearray(data)
@@ -607,6 +613,10 @@ def cutsets_for(rng, data, thorough):
                   fakenet.random_cuts(rng, n, 'few'))
     if n <= 24 and thorough:
         cs.extend([[i] for i in range(1, n)])
+    if n > 65536:
+        # what matters for a 64 KiB line: whether the reader's buffer overran before the LF arrived
+        cs += [[65536], [65537], [66000], list(range(8192, n, 8192)), [n - 1], [65000, 66000]]
+        cs = [[c for c in x if 0 < c < n] for x in cs]
     return cs
 
 
